@@ -24,8 +24,10 @@ Z = G.Z
 
 
 def fragments(V, kind="Molecule"):
-    A = M.mk_mol(V, kind, 3, ((0, 1), (1, 2)), name="A", full=True)
-    B = M.mk_mol(V, kind, 3, ((0, 1), (1, 2)), name="B", full=True)
+    # the bond of an attachment point may be stored as (neighbour, AP) or as (AP, neighbour): both orientations for both fragments
+    flip = V.choose([False, True], "attachment-bonds-stored-reversed")
+    A = M.mk_mol(V, kind, 3, ((0, 1), (2, 1)) if flip else ((0, 1), (1, 2)), name="A", full=True)      # AP of A = atom 2
+    B = M.mk_mol(V, kind, 3, ((1, 0), (1, 2)) if flip else ((0, 1), (1, 2)), name="B", full=True)      # AP of B = atom 0
     return A, B
 
 
@@ -156,6 +158,11 @@ def _join_geom(V):
     v2 = [Z(cb[0][k]) - Z(cb[1][k]) for k in range(3)]
     n2 = NP.sqrt_sumsq(I, [SV(x, "real") for x in v2])
     V.ensure("post/used-the-rotation-contract-once", z3.BoolVal(len([e for e in st.trace if e[:2] == ("contract", "rotation_matrix_from_vectors")]) == 1))
+    facts = st.ghost.get("rot_facts", [])
+    if len(facts) == 1:
+        # the rotation takes B's attachment direction (neighbour -> attachment point) onto the reverse of A's: B is attached the right way round
+        V.ensure("post/B-is-turned-so-that-its-attachment-direction-opposes-A's",
+                 z3.And(*[Z(facts[0]["v1"][k]) == v2[k] for k in range(3)], *[Z(facts[0]["v2"][k]) == -v1[k] for k in range(3)]))
 
 
 @P.unit("molli.math.rotation:rotation_matrix_from_vectors", name="join does not depend on hidden state (no RNG on any path)")
